@@ -9,6 +9,7 @@ symbolic multivector calls, raising calls, injected faults during generation, th
 """
 import threading
 from fractions import Fraction
+import time
 from harness.common import *
 from harness.opcorr import key_tuples, BIN, UN, ks, mv_to_dict
 
@@ -182,6 +183,7 @@ def run(ctx):
     # injected faults while code is generated: the wrapper raises on chosen applications
     fault_pass(ctx)
     thread_pass(ctx)
+    registration_pass(ctx)
     pressure_pass(ctx)
     called_mv_pass(ctx)
     derived_operand_pass(ctx)
@@ -299,6 +301,85 @@ def thread_pass(ctx):
             if g != e:
                 ctx.violation('thread-result', {'sig': sig, 'wrapper': bool(wrapper), 'call': jsonable(hist[i])}, str(e), str(g), key='history:threads')
                 break
+
+
+def registration_pass(ctx):
+    """(a) first calls of one registered function for one key pattern made from several threads at once (the function body holds
+    the first thread inside the compilation until the others have called): every thread gets the value; (b) the same function
+    object registered again - after a global it reads has changed, or with the other `symbolic=` flag - behaves like the same
+    registration on a fresh algebra, not like the earlier registration"""
+    import sympy
+    from kingdon import MultiVector
+    rng = ctx.rng
+    for sig, wrapper in (([1, 1, 1], None), ([0, 1, 1], ident)):
+        # (a)
+        for symbolic in (False, True):
+            alg = make_algebra(sig, **({'wrapper': wrapper} if wrapper else {}))
+            gate = threading.Event(); inside = threading.Event()
+            def body(x, y):
+                inside.set()
+                gate.wait(timeout=2.0)            # compilation in progress: the other threads make their first call now
+                return x * y + (x | y)
+            rf = alg.register(body, symbolic=symbolic)
+            kx, ky = (1, 2, 4), (1, 6)
+            mkxy = lambda: (MultiVector.fromkeysvalues(alg, kx, [Fraction(2), Fraction(3), Fraction(5)]), MultiVector.fromkeysvalues(alg, ky, [Fraction(7), Fraction(11)]))
+            x0, y0 = mkxy()
+            exp = result_dict(x0 * y0 + (x0 | y0))
+            results = {}
+            def worker(i):
+                try:
+                    results[i] = ('ok', result_dict(rf(*mkxy())))
+                except Exception as ex:
+                    results[i] = ('raise', type(ex).__name__)
+            ths = [threading.Thread(target=worker, args=(i,)) for i in range(4)]
+            ths[0].start(); inside.wait(timeout=5.0)
+            for t in ths[1:]: t.start()
+            time.sleep(0.05); gate.set()
+            for t in ths: t.join()
+            for i in range(4):
+                case = {'sig': sig, 'wrapper': bool(wrapper), 'symbolic_route': symbolic, 'thread': i, 'scenario': 'overlapping first calls of one registered function'}
+                ctx.case(case, tag='registered-threads')
+                if results.get(i) != ('ok', exp):
+                    ctx.violation('thread-result', case, str(exp)[:200], str(results.get(i))[:200], key='history:threads:registered-first-call')
+                    break
+        # (b)
+        glob = {'GAIN': 2}
+        src = 'def amplify(x):\n    return GAIN * x\n'
+        exec(src, glob)
+        f = glob['amplify']
+        def run_on(alg, steps):
+            out = []
+            for st in steps:
+                if st[0] == 'set':
+                    glob['GAIN'] = st[1]
+                elif st[0] == 'register':
+                    r = alg.register(f, symbolic=st[1])
+                elif st[0] == 'call':
+                    xs = alg.vector(name='u') if st[1] == 'symbolic' else MultiVector.fromkeysvalues(alg, (1, 2), [Fraction(3), Fraction(4)])
+                    try:
+                        res = r(xs)
+                        out.append((tuple(int(k) for k in res.keys()), [str(sympy.sympify(v)) for v in res.values()]))
+                    except Exception as ex:
+                        out.append('raises ' + type(ex).__name__)
+            return out
+        scenarios = {
+            'constant changed between two registrations': [('set', 2), ('register', False), ('call', 'numeric'), ('set', 3), ('register', False), ('call', 'numeric')],
+            'registered again with symbolic=True': [('set', 2), ('register', False), ('call', 'numeric'), ('register', True), ('call', 'symbolic'), ('call', 'numeric')],
+            'registered again with symbolic=False': [('set', 2), ('register', True), ('call', 'symbolic'), ('register', False), ('call', 'numeric')],
+        }
+        for nm, steps in scenarios.items():
+            alg = make_algebra(sig, **({'wrapper': wrapper} if wrapper else {}))
+            got = run_on(alg, steps)
+            # reference: only the LAST registration, on a fresh algebra, with the globals as they are at that moment
+            last = max(i for i, st in enumerate(steps) if st[0] == 'register')
+            ref_steps = [st for i, st in enumerate(steps) if st[0] == 'set' or i >= last]
+            fresh = make_algebra(sig, **({'wrapper': wrapper} if wrapper else {}))
+            exp = run_on(fresh, ref_steps)
+            ncalls_after = len([st for st in steps[last:] if st[0] == 'call'])
+            case = {'sig': sig, 'wrapper': bool(wrapper), 'scenario': nm}
+            ctx.case(case, tag='re-registration')
+            if got[-ncalls_after:] != exp[-ncalls_after:]:
+                ctx.violation('history-dependent', case, str(exp[-ncalls_after:])[:250], str(got[-ncalls_after:])[:250], key='history:re-registration')
 
 
 def pressure_pass(ctx):
@@ -467,24 +548,26 @@ def derived_operand_pass(ctx):
                 ctx.violation('history-dependent', case, str(fresh)[:250], str(hist)[:250], key=f'history:derived-operand:{f.__name__}')
 
 
-def collision_search(ctx):
+def collision_search(ctx, ops=('gp',)):
     """key orders of one key set through every by-name route: three orders in d = 3, and in d = 5 / 6 orders of key sets with
-    one- and two-digit keys whose digit strings coincide when concatenated ((1,17,2) / (17,1,2), ...)"""
+    one- and two-digit keys whose digit strings coincide when concatenated - in decimal ((1,17,2) / (17,1,2), ...) and in
+    hexadecimal ((2,1,18,33) / (33,18,2,1): 2·1·12·21 = 21·12·2·1)"""
     cases3 = [([1, 2, 4], [4, 1, 2]), ([1, 2, 4], [2, 4, 1])]
     cases5 = [([1, 17, 2], [17, 1, 2]), ([1, 2, 16], [16, 1, 2]), ([1, 11, 2], [11, 1, 2]), ([3, 31, 1], [31, 3, 1])]
-    for sig, cases in (([1, 1, 1], cases3), ([0, 1, 1], cases3), ([1, 1, 1, 1, 1], cases5), ([0, 1, 1, 1, 1, -1], cases5)):
+    cases6 = cases5 + [([2, 1, 18, 33], [33, 18, 2, 1]), ([1, 17, 16], [17, 1, 16][::-1][::-1]), ([1, 16, 17], [17, 16, 1])]
+    for sig, cases in (([1, 1, 1], cases3), ([0, 1, 1], cases3), ([1, 1, 1, 1, 1], cases5), ([0, 1, 1, 1, 1, -1], cases6)):
         for ka, kb in cases:
             for wrapper in (ident, None):
                 alg = make_algebra(sig, **({'wrapper': wrapper} if wrapper else {}))
                 regs = make_regs(alg)
-                va = [Fraction(2), Fraction(3), Fraction(5)]
+                va = [Fraction(2), Fraction(3), Fraction(5), Fraction(13)][:len(ka)]
                 a = {'kind': 'reg', 'f': 0, 'kx': list(ka), 'ky': [1, 6], 'vx': va, 'vy': [Fraction(7), Fraction(11)]}
                 b = dict(a); b['kx'] = list(kb); b['vx'] = [va[ka.index(k)] for k in kb]
                 bad = False
                 for seq in ([a, b, a], [b, a, b]):
                     for c in seq:
-                        for kind in ('reg', 'bin'):
-                            call = dict(c); call['kind'] = kind; call['op'] = 'gp'
+                        for kind, opn in [('reg', ops[0])] + [('bin', o_) for o_ in ops] + [('un', 'neg'), ('un', 'reverse')]:
+                            call = dict(c); call['kind'] = kind; call['op'] = opn
                             ctx.case(('collision', tuple(sig), bool(wrapper), kind, tuple(call['kx'])), tag='name-collision-search')
                             got = do_call(alg, regs, call)
                             fresh = make_algebra(sig, **({'wrapper': wrapper} if wrapper else {}))
